@@ -165,7 +165,7 @@ func (r *rewriter) sendStmt(n *ast.SendStmt) ast.Stmt {
 		val = tv
 	}
 	ts := r.tmp("s")
-	stmts = append(stmts, define(ts, call("PreSend", tc, r.pos(n))))
+	stmts = append(stmts, define(ts, call("PreSendV", tc, val, r.pos(n))))
 	stmts = append(stmts, &ast.SendStmt{Chan: tc, Value: val})
 	stmts = append(stmts, &ast.ExprStmt{X: &ast.CallExpr{Fun: &ast.SelectorExpr{X: ts, Sel: ast.NewIdent("Post")}}})
 	return &ast.BlockStmt{List: stmts}
